@@ -45,7 +45,7 @@ def obligations(tier):
                               "then %s" % (p // 2, "dict" if p % 2 == 0 else "parsed object", "remove/clear x 2 selectors" if tier == "quick" else "any op x 4 selectors x 2 markings")))
     for p in range(16):
         obls.append(CH("granular_sequences_on_objects_p%02d" % p, H, "seq2_objects", t, mode="E1s", functions=F, stubs=[CLOCK], env={"VERIF_PART": str(p)},
-                       bounds="as granular_sequences (2 steps) but starting from a parsed Malware object instead of a dict; first op %d, marking %d" % (p // 4, p % 4)))
+                       bounds="as granular_sequences (2 steps) but on a parsed Malware object through the methods objects carry (obj.add_markings(...), obj.is_marked(...)); first op %d, marking %d" % (p // 4, p % 4)))
     for p in range(9):
         obls.append(CH("multi_selector_operations_p%d" % p, H, "seq_multi", t, mode="E1s", functions=F, stubs=[CLOCK], env={"VERIF_PART": str(p)},
                        bounds="add on selector %d (2 markings), then add/remove/clear/set naming two of 5 selectors and one or two markings, on a dict and on a parsed object" % p))
